@@ -384,6 +384,7 @@ def targets(ctx):
         Target("payload_sizes_around_powers_of_two", size_ev, cases=size_cases, exhaustive=True,
                rule="one bytes / string / nested-message / packed payload of exactly 2**k-1, 2**k, 2**k+1 bytes (k = 7..23, thorough 24) and 3*2**k, 5 MiB, 6 MiB: round trip, len, reference re-encoding"),
         __import__("vf.props.c15", fromlist=["fold_target"]).fold_target(c),
+        __import__("vf.props._inherit", fromlist=["target"]).target(c),
         _seq.target("C01"),
         _wkt.target("C01"),
     ]
